@@ -78,7 +78,9 @@ type Frame struct {
 	recovers bool
 	isInit   bool
 	// localOnly > 0: executing inside a loop declared `modifies local`
-	localOnly bool
+	localOnly   bool
+	curPos      token.Pos
+	curIns      ssa.CallInstruction
 	pendingRes  []Term
 	pendingResT *types.Tuple
 }
@@ -999,6 +1001,13 @@ func (fr *Frame) binop(op token.Token, a, b Term, ta, tb, tr types.Type, va, vb 
 		}
 		return fr.bitop("uand", a, b, tr)
 	case token.OR:
+		// x | 1 is exact in integer arithmetic: sets the lowest bit
+		if b.S == "1" && !ii.signed {
+			return ite(eq(app(SInt, "mod", a, tInt(2)), tInt(0)), app(SInt, "+", a, tInt(1)), a)
+		}
+		if a.S == "1" && !ii.signed {
+			return ite(eq(app(SInt, "mod", b, tInt(2)), tInt(0)), app(SInt, "+", b, tInt(1)), b)
+		}
 		return fr.bitop("uor", a, b, tr)
 	case token.XOR:
 		return fr.bitop("uxor", a, b, tr)
